@@ -58,6 +58,7 @@ struct Gen {
   Rng r;
   Plan& p;
   model::GenOpts go;
+  bool big = false;   // rare runs with containers of up to 1800 elements and strings of up to 70 KB
   Gen(uint64_t s, Plan& pl) : r(s), p(pl) {}
   std::string path() { std::string s; size_t n = r.below(4); for (size_t i = 0; i < n; i++) s += (char)r.below(256); return s; }
   std::string val(int depth = 2) { model::GenOpts g = go; g.max_depth = depth; return model::canon(model::gen_value(r, g)); }
@@ -80,7 +81,7 @@ struct Gen {
     op.s.push_back(pth);
     if (kn == "AddMember") { op.a.push_back((int64_t)r.below(2)); op.s.push_back(model::gen_key(r, go)); op.s.push_back(val(r.chance(1, 4) ? 2 : 1)); if (r.chance(1, 25)) op.fault = FT_STRCOPY_FAIL; }
     else if (kn == "RemoveMember") op.s.push_back(model::gen_key(r, go));
-    else if (kn == "PushBackN" || kn == "AddMemberN") { op.a.push_back((int64_t)(r.chance(1, 2) ? r.below(48) : r.below(12))); op.a.push_back((int64_t)r.below(2)); }
+    else if (kn == "PushBackN" || kn == "AddMemberN") { op.a.push_back((int64_t)(big ? r.below(1800) : (r.chance(1, 2) ? r.below(48) : r.below(12)))); op.a.push_back((int64_t)r.below(2)); }
     else if (kn == "EraseMember" || kn == "Erase") { op.a.push_back((int64_t)r.below(8)); op.a.push_back((int64_t)r.below(r.chance(1, 2) ? 2 : 8)); op.a.push_back((int64_t)r.below(2)); }
     else if (kn == "MemberReserve" || kn == "Reserve") op.a.push_back((int64_t)(r.chance(1, 3) ? r.below(70) : r.below(20)));
     else if (kn == "PushBack") op.s.push_back(val(r.chance(1, 4) ? 2 : 1));
@@ -109,8 +110,10 @@ struct Gen {
     return pspec_encode(v);
   }
   void seed_docs(int howmany, int depth) {
-    for (int i = 0; i < howmany; i++) {
-      Op& op = add("Build"); op.a.push_back(slot()); op.s.push_back(""); op.a.push_back((int64_t)r.below(3));
+    // most slots start as a container so that few later ops find nothing to work on
+    for (int i = 0; i < NSLOT; i++) {
+      if (i >= howmany && !r.chance(2, 3)) continue;
+      Op& op = add("Build"); op.a.push_back(i); op.s.push_back(""); op.a.push_back((int64_t)r.below(3));
       model::GenOpts g = go; g.max_depth = depth;
       JVal v = r.chance(3, 4) ? (r.chance(1, 2) ? JVal::obj() : JVal::arr()) : JVal::null();
       if (v.k == JVal::Obj) { size_t n = r.below(6); for (size_t j = 0; j < n; j++) { std::string k = model::gen_key(r, g); if (!g.dup_keys && v.find(k) >= 0) continue; v.o.emplace_back(k, model::gen_value(r, g, 1)); } }
@@ -153,6 +156,8 @@ struct Gen {
 static uint64_t run_seed(uint64_t seed, const char* prop, uint64_t run) { return mix3(seed, prop_tag(prop), run); }
 
 static void common_knobs(Plan& p, Gen& g, uint64_t rs, uint32_t chk) {
+  { static const int64_t wa[] = {1, 1, 2, 4, 8}; p.knobs["walk_all_every"] = getenv("SIM_WALK") ? atoi(getenv("SIM_WALK")) : wa[g.r.below(5)]; }
+  if (g.r.chance(1, 120)) { g.big = true; p.knobs["big"] = 1; g.go.huge_strings = true; }
   p.knobs["envseed"] = (int64_t)(mix64(rs ^ 0x77) >> 1);
   p.knobs["chk"] = chk;
   p.knobs["str_mode"] = (int64_t)g.r.below(3);
